@@ -45,7 +45,12 @@ func TestBitsTranspose(t *testing.T) {
 		for i := range m {
 			switch class {
 			case "drawn":
-				m[i] = rapid.SliceOfN(rapid.Byte(), colBytes, colBytes).Draw(t, fmt.Sprintf("row%d", i))
+				if colBytes >= 64 { // large shapes: one drawn seed per row instead of hundreds of byte draws
+					m[i] = make([]byte, colBytes)
+					_, _ = vlib.NewPRNG(rapid.Uint64().Draw(t, fmt.Sprintf("rowSeed%d", i)), "c09/transpose").Read(m[i])
+				} else {
+					m[i] = rapid.SliceOfN(rapid.Byte(), colBytes, colBytes).Draw(t, fmt.Sprintf("row%d", i))
+				}
 			default:
 				m[i] = make([]byte, colBytes)
 				if class == "one0" {
